@@ -6,6 +6,8 @@
 (*   [rank   : position of its name in Python string order,                *)
 (*    degree : number of species it shares a reaction with (incl. itself), *)
 (*    base   : Seq of characters - the name without surface prefix/group   *)
+(*    key    : Seq of characters - the species' identity apart from how it  *)
+(*             is spelled (= base, except for dust grains)                 *)
 (*             and without charge signs, element case normalised,          *)
 (*    surface: BOOLEAN, sgroup : Nat, charge : Int]                        *)
 (* Sort orders the classes by (degree, rank) as Network.species does;      *)
@@ -63,5 +65,8 @@ SlotOf(s) == CHOOSE k \in DOMAIN order : order[k] = s
 Bijection      == pc = "emit" => /\ Len(order) = Cardinality(SP) /\ \A s \in SP : \E k \in DOMAIN order : order[k] = s
 AliasLegal     == \A s \in SP : Legal(AliasOf(s))
 AliasInjective == \A a, b \in SP : a # b => AliasOf(a) # AliasOf(b)
+(* one record -- hence one slot -- per species: two spellings of one species (GRAIN / GRAIN0, e- / E) never stay two records.  `key`
+   is the species' identity apart from spelling (the base name; for dust grains the grain symbol) *)
+OneRecordPerSpecies == \A a, b \in SP : a # b => <<a.key, a.surface, a.sgroup, a.charge>> # <<b.key, b.surface, b.sgroup, b.charge>>
 ViewsAgree     == \A a, b \in DOMAIN views : views[a].pairs = views[b].pairs /\ views[a].n = views[b].n
 =============================================================================
